@@ -269,6 +269,45 @@ func enumerate(shard, nshards int, yield func(Case)) {
 			yield(Case{Files: map[string][]byte{"/w/root.json": b}, Root: "/w/root.json", Entry: []string{"data", "datawithpath"}[g%2], AllowExt: g%4 < 2})
 		}
 	}
+	// a default (or example) validated through a reference cycle reaches a schema before that schema's own
+	// members were checked, and one of those members is a reference that only leads to itself (nil value)
+	{
+		slots := []string{
+			`"type":"object","required":["z"],"properties":{"z":%s,"b":{"$ref":"#/components/schemas/B"}}`,
+			`"type":"object","properties":{"z":%s,"b":{"$ref":"#/components/schemas/B"}}`,
+			`"type":"object","additionalProperties":%s,"properties":{"b":{"$ref":"#/components/schemas/B"}}`,
+			`"type":"object","properties":{"l":{"type":"array","items":%s},"b":{"$ref":"#/components/schemas/B"}}`,
+			`"type":"object","allOf":[%s],"properties":{"b":{"$ref":"#/components/schemas/B"}}`,
+			`"type":"object","anyOf":[%s,{"type":"object"}],"properties":{"b":{"$ref":"#/components/schemas/B"}}`,
+			`"type":"object","oneOf":[%s,{"type":"object"}],"properties":{"b":{"$ref":"#/components/schemas/B"}}`,
+			`"type":"object","not":%s,"properties":{"b":{"$ref":"#/components/schemas/B"}}`,
+		}
+		values := []string{`{}`, `{"z":1}`, `{"l":[1],"k":2}`, `{"z":null,"b":{"a":{}}}`}
+		for si, slot := range slots {
+			for vi, val := range values {
+				for _, kw := range []string{"default", "example"} {
+					for _, z := range []string{`{"Z":{"$ref":"#/components/schemas/Z"}}`, `{"Z":{"$ref":"#/components/schemas/Y"},"Y":{"$ref":"#/components/schemas/Z"}}`} {
+						idx++
+						if idx%nshards != shard {
+							continue
+						}
+						var zm M
+						_ = json.Unmarshal([]byte(z), &zm)
+						schemas := M{}
+						for k, v := range zm {
+							schemas[k] = v
+						}
+						var a, b M
+						_ = json.Unmarshal([]byte("{"+fmt.Sprintf(slot, `{"$ref":"#/components/schemas/Z"}`)+"}"), &a)
+						_ = json.Unmarshal([]byte(`{"type":"object","properties":{"a":{"$ref":"#/components/schemas/A"}},"`+kw+`":{"a":`+val+`}}`), &b)
+						schemas["A"], schemas["B"] = a, b
+						doc, _ := json.Marshal(M{"openapi": "3.0.3", "info": M{"title": "t", "version": "1"}, "paths": M{}, "components": M{"schemas": schemas}})
+						yield(Case{Files: map[string][]byte{"/w/root.json": doc}, Root: "/w/root.json", Entry: []string{"data", "datawithpath"}[(si+vi)%2], VOpts: []int{0, 4, 8}[idx%3]})
+					}
+				}
+			}
+		}
+	}
 	for i, files := range extCycles {
 		for _, entry := range []string{"uri", "datawithpath"} {
 			idx++
